@@ -790,6 +790,28 @@ func (c *c10Case) op(who string, f ...string) string {
 		case "heat":
 			x.UnaccountedEncryptions.Store(AbsoluteOperationMaximum + 1)
 			return "ok"
+		case "probe":
+			// the barrier's other serving entry points: each has its OWN sealed guard. Any outcome other than the sealed
+			// error is reported as "served" (on an unsealed barrier their results are not compared here).
+			var err error
+			switch f[1] {
+			case "listpage":
+				_, err = x.ListPage(ctx, "d/", "", -1)
+			case "listpage1":
+				_, err = x.ListPage(ctx, "d/", "d/a", 1)
+			case "encrypt":
+				_, err = x.Encrypt(ctx, "d/a", []byte("plain"))
+			case "decrypt":
+				_, err = x.Decrypt(ctx, "d/a", []byte{0, 0, 0, 1, 2, 9, 9, 9, 9, 9, 9, 9, 9, 9, 9, 9, 9, 9, 9, 9, 9, 9, 9, 9, 9, 9, 9, 9, 9, 9, 9, 9, 9, 9})
+			case "keyring":
+				_, err = x.Keyring()
+			default:
+				c.t.Fatalf("unknown probe %v", f)
+			}
+			if err != nil && (errors.Is(err, ErrBarrierSealed) || errors.Is(err, ErrNamespaceSealed)) {
+				return c10Err(err)
+			}
+			return "served"
 		case "keyinfo":
 			ki, err := x.ActiveKeyInfo()
 			if err != nil {
@@ -1142,7 +1164,8 @@ func c10RunCase(t *testing.T, out *vh.Out, rng *vh.Rand, idx int) {
 			c.op("a", "seal")
 			for _, o := range [][]string{{"put", rng.Pick(dataKeys), val()}, {"get", rng.Pick(dataKeys)}, {"del", rng.Pick(dataKeys)}, {"list"},
 				{"rotate"}, {"rotroot", rng.Pick(roots)}, {"keyinfo"}, {"verifyroot", rng.Pick(roots)}, {"chkupgrade"}, {"mkupgrade", "2"},
-				{"rmupgrade", "2"}, {"reloadroot"}, {"setroot", rng.Pick(roots)}, {"get", "core/root-key"}, {"tick"}, {"setrot", "1"}} {
+				{"rmupgrade", "2"}, {"reloadroot"}, {"setroot", rng.Pick(roots)}, {"get", "core/root-key"}, {"tick"}, {"setrot", "1"},
+				{"probe", "listpage"}, {"probe", "listpage1"}, {"probe", "encrypt"}, {"probe", "decrypt"}, {"probe", "keyring"}} {
 				if rng.Chance(45) {
 					c.op("a", o...)
 				}
